@@ -74,8 +74,14 @@ fn child() -> i32 {
                 if pe.is_pe.unwrap_or(false) && !pe.sections.is_empty() {
                     let mut pairs: Vec<(u32, Option<u32>)> = vec![];
                     if let Some(raw) = pe.entry_point_raw { pairs.push((raw, pe.entry_point)); }
-                    // forwarded exports carry no offset: their rva points at a string inside the export directory
-                    for e in pe.export_details.iter().filter(|e| e.forward_name.is_none()).take(24) { if let Some(rva) = e.rva { pairs.push((rva, e.offset)); } }
+                    // forwarded exports (rva inside the export directory) carry no offset: leave them out
+                    let (ex_va, ex_size) = pe.data_directories.first().map(|d| (d.virtual_address.unwrap_or(0), d.size.unwrap_or(0))).unwrap_or((0, 0));
+                    for e in pe.export_details.iter().take(40) {
+                        if let Some(rva) = e.rva {
+                            let forwarded = (rva as u64) >= ex_va as u64 && (rva as u64) < ex_va as u64 + ex_size as u64;
+                            if !forwarded && e.forward_name.is_none() && pairs.len() < 25 { pairs.push((rva, e.offset)); }
+                        }
+                    }
                     for r in pe.resources.iter().take(24) { if let Some(rva) = r.rva { pairs.push((rva, r.offset)); } }
                     pe_line = format!("PE {} {} {} {} {}", idx, pe.file_alignment.unwrap_or(0), pe.section_alignment.unwrap_or(0),
                         pe.sections.iter().map(|s| format!("{}:{}:{}:{}", s.virtual_address.unwrap_or(0), s.virtual_size.unwrap_or(0), s.raw_data_offset.unwrap_or(0), s.raw_data_size.unwrap_or(0))).collect::<Vec<_>>().join(","),
